@@ -1,6 +1,7 @@
 """Registry: property id -> Spec."""
 from checks.parse_spec import C01, C02, C04, C05
+from checks.scan_spec import C07
 
 SPECS = {}
-for _s in (C01(), C02(), C04(), C05()):
+for _s in (C01(), C02(), C04(), C05(), C07()):
     SPECS[_s.prop] = _s
